@@ -1822,6 +1822,11 @@ pub struct ConnectionH2<Front: SocketHandler> {
     /// the backend grows by ~1 MiB per SETTINGS frame, past the configured
     /// bound and eventually past 2^31-1 (RFC 9113 §6.9.1).
     connection_window_enlarged: bool,
+    /// A control-frame answer (SETTINGS ACK, PING ACK, GOAWAY) is waiting in
+    /// `zero` behind a half-written stream frame (see `expect_zero_write`).
+    /// `zero` also receives incoming frame headers and control payloads, so
+    /// "`zero` is not empty" does not tell whether it holds output.
+    zero_write_deferred: bool,
     /// Set once we have halved `local_settings.settings_max_concurrent_streams`
     /// in response to a refusal burst. Prevents the cap from collapsing to 0
     /// on sustained abuse — a single halving per connection is sufficient to
@@ -1976,6 +1981,7 @@ impl<Front: SocketHandler> ConnectionH2<Front> {
             refuse_window_start: Instant::now(),
             peer_settings_received: false,
             connection_window_enlarged: false,
+            zero_write_deferred: false,
             mcs_backpressure_applied: false,
         })
     }
@@ -2813,7 +2819,8 @@ impl<Front: SocketHandler> ConnectionH2<Front> {
             // The frame that was half-written is complete: answers to control
             // frames received meanwhile (see `expect_zero_write`) go out now,
             // on a frame boundary, before any other stream frame.
-            if !self.zero.storage.is_empty() {
+            if self.zero_write_deferred {
+                self.zero_write_deferred = false;
                 if self.flush_zero_to_socket() {
                     self.expect_write = Some(H2StreamId::Zero);
                     self.ensure_tls_flushed();
@@ -3615,6 +3622,7 @@ impl<Front: SocketHandler> ConnectionH2<Front> {
     fn flush_pending_control_frames(&mut self) -> Option<MuxResult> {
         if self.frontend_hung_up_while_draining() {
             self.expect_write = None;
+            self.zero_write_deferred = false;
             self.zero.storage.clear();
             self.flow_control.pending_window_updates.clear();
             self.pending_rst_streams.clear();
@@ -3637,15 +3645,17 @@ impl<Front: SocketHandler> ConnectionH2<Front> {
         // new control frames. Don't reset the timeout for control frame
         // writes (SETTINGS ACK, PING response, WINDOW_UPDATE) — only
         // application-data writes should reset it.
-        // Also due when nothing is marked but the buffer holds an answer that
-        // `expect_zero_write` queued behind a half-written stream frame whose
-        // stream has been retired since (`remove_dead_stream` clears the marker).
+        // Also due when nothing is marked but `expect_zero_write` queued an answer
+        // behind a half-written stream frame whose stream has been retired since
+        // (`remove_dead_stream` clears the marker). A non-empty `zero` alone is no
+        // sign of that: it may hold a partly received frame.
         let zero_due = match self.expect_write {
             Some(H2StreamId::Zero) => true,
             Some(H2StreamId::Other { .. }) => false,
-            None => !self.zero.storage.is_empty(),
+            None => self.zero_write_deferred,
         };
         if zero_due {
+            self.zero_write_deferred = false;
             if self.flush_zero_to_socket() {
                 self.expect_write = Some(H2StreamId::Zero);
                 self.ensure_tls_flushed();
@@ -4832,7 +4842,9 @@ impl<Front: SocketHandler> ConnectionH2<Front> {
     /// that case the marker is left alone; `write_streams` flushes the zero
     /// buffer as soon as the pending frame is complete.
     fn expect_zero_write(&mut self) {
-        if !matches!(self.expect_write, Some(H2StreamId::Other { .. })) {
+        if matches!(self.expect_write, Some(H2StreamId::Other { .. })) {
+            self.zero_write_deferred = true;
+        } else {
             self.expect_write = Some(H2StreamId::Zero);
         }
     }
